@@ -2,6 +2,7 @@
    Statements only; proofs in Proofs/Sliding*.v. Histories are lists of atomic steps, so every
    theorem holds for every interleaving of the ingest goroutine with the trigger goroutine. *)
 From Coq Require Import Lia Sorted.
+From SV Require Import Spec.QuietSpec Proofs.QuietProofs.
 From SV Require Import Model.Sliding Proofs.TumblingProofs Proofs.TumblingComplete Proofs.SlidingProofs Proofs.SlidingComplete.
 
 (* every emitted interval is [s, s+size) with s a multiple of the slide, and holds only rows that
@@ -58,6 +59,13 @@ Proof.
   exact (sliding_every_cover_delivered c Hs Hz h1 id ts now h2 s1 tr1 sa ea s tr a k).
 Qed.
 Print Assumptions C08_every_covering_interval_delivered.
+
+(* delivery liveness across a channel overflow (see Spec/QuietSpec.v): after "channel empty, tick, drained again" with no
+   Add in between, the last watermark received is >= (largest sane timestamp) - ooo on every trace *)
+Theorem C08_tick_redelivers_skipped_watermark : forall c base h,
+  Forall (now_is base) h -> quiet_violated (sooo c) base (snd (srun c sst0 h)) = false.
+Proof. exact sliding_quiet. Qed.
+Print Assumptions C08_tick_redelivers_skipped_watermark.
 
 (* non-vacuity: size 10, slide 5; an on-time row older than the first row's slot (the repaired
    defect) brings in the two earlier intervals; the row 1012 is in both intervals covering it *)
